@@ -40,9 +40,11 @@ func init() {
 	oneshots["C01"] = p.oneshot
 }
 
-func (p *c01) Shards(tier string) int          { return 16 }
-func (p *c01) CaseTimeoutSec(tier string) int  { return 90 }
-func (p *c01) RequiredCounters(string) []string { return []string{"renders-compared", "fingerprint-checks", "pool-scans"} }
+func (p *c01) Shards(tier string) int         { return 16 }
+func (p *c01) CaseTimeoutSec(tier string) int { return 90 }
+func (p *c01) RequiredCounters(string) []string {
+	return []string{"renders-compared", "fingerprint-checks", "pool-scans"}
+}
 
 type c01Op struct {
 	Kind   string // render renderTo renderToFail parse handleRender load badRender reregister newVersion setCache setDebugOther gc otherActivity repeatRender
